@@ -46,7 +46,7 @@ Section EnumFacts.
     | VsUnit =>
         match it with
         | NPath _ _ => Ok (VVariant (vi_ident vi) [])
-        | _ => Err (unsupported_format "non-path")
+        | _ => Err (with_span (i_span (ninfo it)) (unsupported_format "non-path"))
         end
     | VsNewtype =>
         match cs with
@@ -59,9 +59,9 @@ Section EnumFacts.
         | NList _ _ _ items =>
             map_ok (VVariant (vi_ident vi))
                    (parse_fields sugg sim interp_with interp_fn fs cs (vi_auk vi) (state0 fs) items
-                                 (fun _ => Ok None) (at_ (vi_name vi)))
+                                 (fun _ => Ok None) (fun e => at_ (vi_name vi) (with_span (i_span (ninfo it)) e)))
         | NBadList _ _ _ es msg => Err (from_syn es msg)
-        | _ => Err (unsupported_format "non-list")
+        | _ => Err (with_span (i_span (ninfo it)) (unsupported_format "non-list"))
         end
     end.
 
